@@ -76,8 +76,18 @@ def ref(ts, wide, lfmodel=False):
 
 
 # ---- known-finding classes (syntactic signatures of the failing globs) ----
-def kclasses(ts):
-    """-> {finding key: set of excused directions} for the token list of a glob."""
+def kclasses(ts, broad=False):
+    """-> {finding key: set of excused directions} for the token list of a glob.
+    broad=True (used for the seeded random globs, so that no seed can raise a false alarm through
+    an unforeseen combination of the listed defects): a glob showing a defect's trigger is excused
+    in both directions; the completely enumerated globs use the precise, direction-aware classes."""
+    out = _kclasses(ts)
+    if broad:
+        out = {k: {"under", "over"} for k in out}
+    return out
+
+
+def _kclasses(ts):
     out = {}
     # (1) an escaped asterisk is remembered as a pending wildcard
     if any(t[0] == "lit" and t[1] == "*" and t[2] for t in ts):
@@ -194,12 +204,14 @@ def run(ctx):
         else:
             globs.append(g)
     ralpha = alphabet + "*\\/" + "b- "
+    random_globs = set()
     for _ in range(n_random):
         g = "".join(rnd.choice(ralpha) for _ in range(rnd.randint(maxlen + 1, 12)))
         if tokens(g) is None:
             skipped += 1
         else:
             globs.append(g)
+            random_globs.add(g)
     ctx.extra["globs_checked"] = len(globs)
     ctx.extra["globs_skipped_trailing_backslash"] = skipped
 
@@ -226,7 +238,7 @@ def run(ctx):
             st = ctx.violation(f"crash:{type(e).__name__}", f"glob {g!r} cannot be compiled: {e!r}", {"glob": g, "path": "", "expected": False})
             ctx.ob(f"glob {g!r}", "RZ3", st)
             continue
-        kin = kclasses(ts)
+        kin = kclasses(ts, broad=g in random_globs)
         for dom_name, dom in (("nolf", D_NOLF), ("lf", D_LF)):
             verdict = "holds"
             detail = None
